@@ -19,7 +19,7 @@ SPEC = dict(
          "real InMemCollector with 1-4 workers and kept-record capacity 1-3 (or 50), run to quiescence; non-trivial = a "
          "decision took a trace, a later span of a decided trace met its record (forwarded or dropped as late span) and the "
          "collector reached quiescence so that all-or-nothing was evaluated; about a quarter of the cases evict a kept record "
-         "(those exercise the 'forgotten' branch of the model, not the theorem's conclusion); distinct by transcript hash",
+         "(those exercise the 'forgotten' branch of the model, not the theorem's conclusion); TraceTimeout/SendDelay drawn per case from (10 s,2 s),(60 s,0.1 s),(1 s,1 s),(2 s,2 s),(1 s,3 s),(1 s,60 s) - i.e. also TraceTimeout <= SendDelay, where 60 in 100 spans are roots (root-first and single-span traces); distinct by transcript hash",
     trusted_base=["clockwork.FakeClock", "transmit.MockTransmission as the recording transmission",
                   "harness gate between send() and the real sendTraces goroutine (zz_verif_collector.go)",
                   "hashicorp LRU modelled as textbook LRU, cuckoo filter + recent-drop set modelled as an exact set "
